@@ -12,9 +12,16 @@ import (
 	"verif/engine/gosx"
 )
 
-const repoDir = "/repo"
+var repoDir = envOr("VCHECK_REPO", "/repo")
 const verifDir = "/verif"
 const modPath = "github.com/cube2222/octosql"
+
+func envOr(k, d string) string {
+	if v := os.Getenv(k); v != "" {
+		return v
+	}
+	return d
+}
 
 func main() {
 	if len(os.Args) < 2 {
